@@ -25,6 +25,8 @@ ASSUMPTIONS = [
     "model: the tty echoes the drag upload command before the 3 s drag window closes (EchoAssumed); the silent-server case is run on the real code as scenario drag-silent-server",
     "model: a stopped zmodem session is cleaned up (the server answers the cancel sequence); launch of rz/sz always fails here (no helper on the private PATH)",
     "a child killed by a signal has no exit status: any non-zero wrapper status counts as passed on",
+    "a history planned to succeed (cooperative real server, nothing injected) that does not deliver its files intact counts as a violation (the pumps own every byte of the session); one that times out is an infrastructure failure",
+    "steering by internals only: waits on filter.zmodem / stopped / cleaned / dragging / promptPipe and on goroutine stacks; the zmodem session's goroutine is awaited before Ctrl-C is typed (typing it earlier crashes the process: nil writer in handleZmodemError, reported, C19's topic)",
     "near-miss triggers / zmodem-like fragments are free of genuine ones according to the harness's own reference grammar (c05GenuineTrigger / c05GenuineZmodem)",
     "TLC fingerprint collisions negligible",
 ]
@@ -76,7 +78,7 @@ def validate_all(files, tag):
             while lo > 0 and ev[lo].get("e") != "reset":
                 lo -= 1
             findings.append({"file": f, "index": i, "event": ev[i], "invariant": inv, "run": run,
-                             "at": i - lo, "scenario": ev[lo].get("sc", "?"), "opts": {k: ev[lo].get(k) for k in ("drag", "zmodem", "osc52", "tlog")},
+                             "at": i - lo, "scenario": ev[lo].get("sc", "?"), "si": ev[lo].get("si"), "opts": {k: ev[lo].get(k) for k in ("drag", "zmodem", "osc52", "tlog")},
                              "explain": vlib.explain_rejection(f, i + 1)})
             stats["events"] += lo
             j = i + 1
@@ -107,6 +109,8 @@ def _key(f):
         return "%s:%s:%s:%s" % (sc, what, _kind_of(f["run"], ev), rel)
     if what == "mode":
         return "%s:still-transferring-after-%s" % (sc, ev.get("why"))
+    if what == "xfer":
+        return "%s:planned-success-failed" % sc
     if what == "other":
         return "%s:stray-write-%s" % (sc, ev.get("side"))
     if what == "exit":
@@ -239,6 +243,17 @@ def mbt_sample(cases, n, rng):
         seen_shape.add(k[4])
         seen_opt.add(k[:4])
         picked.append(rng.choice(by[k]))
+    # fill up with further seeded picks (other probes after the same option set x history)
+    taken = {json.dumps(c, sort_keys=True) for c in picked}
+    tries = 0
+    while len(picked) < n and tries < 20 * n:
+        tries += 1
+        c = rng.choice(by[rng.choice(keys)])
+        j = json.dumps(c, sort_keys=True)
+        if j not in taken:
+            taken.add(j)
+            picked.append(c)
+    picked = [json.loads(json.dumps(c)) for c in picked]
     for c in picked:
         for s in c["steps"]:
             if s["a"] == "xfer":
@@ -275,7 +290,7 @@ def run(tier, v):
     # 2a. impl -> spec: filter level
     out = os.path.join(vlib.scratch(), "c05tv")
     shards = 16
-    s = vlib.run_driver(h, "c05_tv", out, {"shards": shards, "rounds": 1 if quick else 10, "special": True}, timeout=2400)
+    s = vlib.run_driver(h, "c05_tv", out, {"shards": shards, "rounds": 1 if quick else 20, "special": True}, timeout=2400)
     files = [os.path.join(out, "shard-%02d" % i, "trace.ndjson") for i in range(shards)]
     # 3. (started here, collected below) spec -> impl: seeded sample of TLC's behaviours replayed on real filters
     g = fut_gen.result()
@@ -284,7 +299,7 @@ def run(tier, v):
     cases = vlib.mbt_lines(g["out"])
     if len(cases) < 1000:
         raise vlib.Infra("MBT export produced only %d cases" % len(cases))
-    picked = mbt_sample(cases, 64 if quick else 1200, rng)
+    picked = mbt_sample(cases, 64 if quick else 800, rng)
     mdir = os.path.join(vlib.scratch(), "c05mbt")
     os.makedirs(mdir, exist_ok=True)
     cpath = os.path.join(mdir, "cases.ndjson")
@@ -427,13 +442,21 @@ def run(tier, v):
 
 def _scenario_results(out, f):
     """bytes fed / received of the scenario a finding belongs to (from the driver's results file)"""
-    d = os.path.dirname(f["file"])
-    p = os.path.join(d, "results.ndjson")
-    if not os.path.exists(p):
-        return None
-    for rec in vlib.read_ndjson(p):
-        if rec.get("name") == f["scenario"]:
-            return rec.get("results")
+    name, si = f["scenario"], f.get("si")
+    for d in sorted(os.listdir(out)):
+        p = os.path.join(out, d, "results.ndjson")
+        if not os.path.exists(p) or not os.path.exists(os.path.join(out, d, "trace.ndjson")):
+            continue
+        # the finding's file is this shard's trace or a cut of it: identify the shard by the run's first chunk hash
+        hashes = {e.get("h") for e in f["run"] if e.get("e") in ("feedOut", "feedIn")}
+        for rec in vlib.read_ndjson(p):
+            if rec.get("name") == name and rec.get("scenario") == si:
+                fed = [r for r in (rec.get("results") or []) if "fed" in r]
+                if not fed or not hashes:
+                    continue
+                with open(os.path.join(out, d, "trace.ndjson")) as fh:
+                    if any(h and ('"h":"%s"' % h) in fh.read() for h in list(hashes)[:1]):
+                        return rec.get("results")
     return None
 
 
